@@ -31,6 +31,7 @@ class _PG:
         self.nodes = {}            # id -> node dict (ids in creation order: producers before consumers)
         self.vars = []             # value-variable names in order of creation
         self.nopt = 0
+        self.nor = 0
 
     def new_var(self):
         name = "xyzwuvst"[len(self.vars)] if len(self.vars) < 8 else "v%d" % len(self.vars)
@@ -74,7 +75,10 @@ class _PG:
         self.budget = before
         name = ch.choose("orname", [None, "orv"])
         tag = ch.choose("ortag", [None, "tag", "tagvals"])
-        return ["or", alts, name, "tg" if tag else None, ["A", "B"] if tag == "tagvals" else None]
+        self.nor += 1
+        sfx = "" if self.nor == 1 else str(self.nor)     # every OR has its own value name / tag variable
+        return ["or", alts, name + sfx if name else None, "tg" + sfx if tag else None,
+                ["A", "B"] if tag == "tagvals" else None]
 
     def value(self, allow_or=True, alt=False):
         ch = self.ch
